@@ -30,7 +30,7 @@ KINDS = ('file', 'dir', 'filejson', 'dirjson')
 
 
 def norm(name):
-    return re.sub(r'\.I_[0-9a-f]{32}', '.I_TMP', str(name))
+    return re.sub(r'[0-9a-f]{32}', 'TMP', str(name))      # temporary names are md5 digests of random()
 
 
 def run(kind, seq, real):
